@@ -79,12 +79,23 @@ class PyTr:
     def __init__(self, file, lits, enums, store_attr):
         self.file, self.lits, self.enums, self.store_attr = file, lits, enums, store_attr
         self.procs = {}  # property / method name -> Gallina name of translated procedure
+        self.module_helpers = {}  # private module-level function name -> FunctionDef (single return), inlined at its calls
+        self.dicts = {}    # local name -> ast.Dict it is bound to (a table of defaults handed around inside one method)
         self.helpers = {}  # private method name (as written, e.g. __is_positive_int) -> FunctionDef, inlined at its calls
         self.depth = 0
 
     # -- private helper methods are inlined at their call sites (parameters replaced by the argument expressions) ----
     def helper_call(self, node):
         """(FunctionDef, {param: argument ast}) when [node] is self.<private helper>(args) / ClassName.<helper>(args)"""
+        if isinstance(node, ast.Call) and isinstance(node.func, ast.Name) and node.func.id in self.module_helpers \
+                and not node.keywords:
+            fn = self.module_helpers[node.func.id]
+            params = [a.arg for a in fn.args.args]
+            if len(params) != len(node.args) or fn.args.vararg or fn.args.kwarg or fn.args.kwonlyargs or fn.args.defaults:
+                self.err(node, "helper call arity")
+            if any(not isinstance(a, (ast.Name, ast.Constant, ast.Attribute)) for a in node.args):
+                self.err(node, "helper call argument (names and constants only)")
+            return fn, dict(zip(params, node.args))
         if isinstance(node, ast.Call) and isinstance(node.func, ast.Attribute) and isinstance(node.func.value, ast.Name) \
                 and node.func.attr in self.helpers and not node.keywords:
             fn = self.helpers[node.func.attr]
@@ -99,6 +110,30 @@ class PyTr:
             if any(not isinstance(a, (ast.Name, ast.Constant, ast.Attribute)) for a in node.args):
                 self.err(node, "helper call argument (names and constants only)")
             return fn, dict(zip(params, node.args))
+        return None
+
+    def dict_of(self, node):
+        """the dictionary literal denoted by: a literal, a local bound to one, <local>.pop(key) (which removes the entry
+        from the local's table), or a call of a parameterless private helper whose body is `return {...}`"""
+        if isinstance(node, ast.Dict):
+            return copy.deepcopy(node)
+        if isinstance(node, ast.Name) and node.id in self.dicts:
+            return self.dicts[node.id]
+        if isinstance(node, ast.Call) and isinstance(node.func, ast.Attribute) and node.func.attr == "pop" \
+                and isinstance(node.func.value, ast.Name) and node.func.value.id in self.dicts and len(node.args) == 1 \
+                and not node.keywords:
+            d = self.dicts[node.func.value.id]
+            want = ast.dump(node.args[0])
+            for i, k in enumerate(d.keys):
+                if k is not None and ast.dump(k) == want:
+                    d.keys.pop(i)
+                    return d.values.pop(i)
+            self.err(node, "pop of a key that is not in the table")
+        hc = self.helper_call(node) if isinstance(node, ast.Call) else None
+        if hc and not hc[1]:
+            body = strip_doc(hc[0].body)
+            if len(body) == 1 and isinstance(body[0], ast.Return) and isinstance(body[0].value, ast.Dict):
+                return copy.deepcopy(body[0].value)
         return None
 
     def subst(self, nodes, mapping):
@@ -276,6 +311,20 @@ class PyTr:
             if isinstance(tgt, ast.Attribute) and isinstance(tgt.value, ast.Name) and tgt.value.id == "self" \
                     and tgt.attr in self.procs:
                 return "(s_call {} (fun s => {}))".format(self.procs[tgt.attr], self.expr(node.value, env))
+        if isinstance(node, ast.Assign) and len(node.targets) == 1 and isinstance(node.targets[0], ast.Name):
+            d = self.dict_of(node.value)
+            if d is None or not isinstance(d, ast.Dict):
+                self.err(node, "local assignment (only a table of defaults may be bound to a local)")
+            self.dicts[node.targets[0].id] = d
+            return "s_skip"
+        if isinstance(node, ast.For) and not node.orelse and isinstance(node.target, ast.Name) and len(node.body) == 1 \
+                and isinstance(node.body[0], ast.If) and not node.body[0].orelse and len(node.body[0].body) == 1 \
+                and isinstance(node.body[0].body[0], ast.Raise):
+            # for x in xs: if c(x): raise E      ==      if any(c(x) for x in xs): raise E
+            gen = ast.GeneratorExp(elt=node.body[0].test, generators=[ast.comprehension(
+                target=node.target, iter=node.iter, ifs=[], is_async=0)])
+            test = ast.Call(func=ast.Name(id="any", ctx=ast.Load()), args=[gen], keywords=[])
+            return self.stmt(ast.copy_location(ast.If(test=test, body=node.body[0].body, orelse=[]), node), env)
         if isinstance(node, ast.Expr) and self.helper_call(node.value):
             fn, mapping = self.helper_call(node.value)
             if any(isinstance(n, ast.Return) for b in fn.body for n in ast.walk(b)):
@@ -287,14 +336,14 @@ class PyTr:
                 self.depth -= 1
         if isinstance(node, ast.Expr) and isinstance(node.value, ast.Call) and isinstance(node.value.func, ast.Attribute) \
                 and node.value.func.attr == "update" and len(node.value.args) == 1 and not node.value.keywords \
-                and isinstance(node.value.args[0], ast.Dict):
+                and isinstance((upd := self.dict_of(node.value.args[0])), ast.Dict):
             # <store>[...].update({k: v, ...}) with a literal dictionary = the item assignments in the order written
             base = node.value.func.value
             prefix = self.key_of(ast.Subscript(value=base, slice=ast.Constant("@")))
             if prefix is None:
                 self.err(node, "update target")
             prefix = prefix[:-1]          # "a.b.@" -> "a.b."   ("@" -> "")
-            d = node.value.args[0]
+            d = upd
             terms = []
             for k, v in zip(d.keys, d.values):
                 if k is None or isinstance(v, ast.Dict):
@@ -380,7 +429,12 @@ def gen_settings(repo):
                 and node.name not in public_calls \
                 and all(ast.unparse(d) == "staticmethod" for d in node.decorator_list):
             tr.helpers[node.name] = node
+    for name, fnode in funcs.items():
+        fbody = strip_doc(fnode.body)
+        if name.startswith("_") and len(fbody) == 1 and isinstance(fbody[0], ast.Return) and not fnode.decorator_list:
+            tr.module_helpers[name] = fnode
     for node in strip_doc(settings_cls.body):
+        tr.dicts = {}
         if isinstance(node, ast.FunctionDef) and node.name in tr.helpers:
             continue
         if isinstance(node, ast.Assign):
@@ -396,7 +450,10 @@ def gen_settings(repo):
             if len(body) != 1 or not isinstance(body[0], ast.Assign) or tr.key_of(
                     ast.Subscript(value=body[0].targets[0], slice=ast.Constant("x"))) is None:
                 terr(node, "__init__ shape")
-            items = flat_dict(body[0].value, "")
+            table = tr.dict_of(body[0].value)
+            if not isinstance(table, ast.Dict):
+                terr(node, "__init__: dict literal (or a parameterless private helper returning one) expected")
+            items = flat_dict(table, "")
             out.append("Definition init_cfg : store :=\n  [{}].\n".format(
                 ";\n   ".join("({}, {})".format(coq_string(k), v) for k, v in items)))
             seen_init = True
@@ -435,7 +492,7 @@ def gen_settings(repo):
     for name, node in funcs.items():
         body = strip_doc(node.body)
         args = [a.arg for a in node.args.args]
-        if name == "get_settings":
+        if name == "get_settings" or name in tr.module_helpers:
             continue
         if name == "use_mc_sample_size":
             wrapper_shape = _wrapper_shape(file, node)
